@@ -20,6 +20,8 @@ Failing-input search (independent of the mirrors): from the implementation's own
 and returned tree recompute post-order, arguments, production symbols, parameter,
 leaves, and the hull span of every call.
 """
+import random
+import zlib
 from vlib import core
 from gen import grammars as G
 
@@ -55,6 +57,53 @@ CORPUS_REC = [
      [[("(", 0, 1), ("x", 2, 3)], [("x", 2, 3), (")", 5, 6)], [("(", 1, 2), ("o", 3, 4), (")", 5, 6)],
       [("(", 0, 1), ("x", 1, 2), ("o", 2, 3), ("o", 4, 5), (")", 7, 8)]]),
 ]
+
+
+# LEXER-SUPPLIED faulty lexemes (Lexeme::new_faulty is public API: a lexer with its own error handling may produce them):
+# a 4th field True marks the lexeme faulty.  A faulty input lexeme of non-zero length is still a lexeme the production derived.
+CORPUS_FAULTY = [
+    ("%start S\n%%\nS: Item Item Item;\nItem: 'ID' | 'NUM';\n",
+     [[("ID", 0, 2), ("NUM", 3, 5, True), ("ID", 6, 8)], [("NUM", 0, 2, True), ("ID", 3, 5), ("ID", 6, 8)],
+      [("ID", 1, 2), ("ID", 3, 5), ("NUM", 6, 8, True)], [("NUM", 1, 2, True), ("NUM", 3, 5, True), ("NUM", 6, 8, True)]]),
+    ("%start S\n%%\nS: 'a' E T E 'c';\nT: 'b' | T 'b';\nE: ;\n",
+     [[("a", 0, 1), ("b", 2, 3, True), ("c", 5, 6)], [("a", 0, 1, True), ("b", 2, 3), ("b", 4, 6, True), ("c", 7, 8, True)],
+      [("a", 0, 1), ("b", 2, 3, True), ("b", 4, 6), ("b", 8, 9, True), ("c", 10, 11)]]),
+    ("%start S\n%%\nS: L;\nL: L I | ;\nI: 'x' O;\nO: 'o' | ;\n",
+     [[("x", 1, 2, True)], [("x", 1, 2), ("o", 2, 3, True), ("x", 5, 6, True), ("x", 7, 8)], [("x", 0, 1, True), ("o", 3, 4, True)]]),
+]
+
+# the same with errors (recovery on): faulty lexemes next to the error, deleted / shifted by a repair
+CORPUS_FAULTY_REC = [
+    ("%start S\n%%\nS: Item Item Item;\nItem: 'ID' | 'NUM';\n",
+     [[("ID", 0, 2), ("NUM", 3, 5, True)], [("NUM", 0, 2, True), ("ID", 3, 5), ("ID", 6, 8), ("NUM", 9, 11, True)],
+      [("NUM", 1, 3, True)]]),
+    ("%start S\n%%\nS: '(' L ')' ;\nL: L I | ;\nI: 'x' O;\nO: 'o' | ;\n",
+     [[("(", 0, 1, True), ("x", 2, 3, True)], [("x", 2, 3, True), (")", 5, 6)], [("(", 1, 2), ("o", 3, 4, True), (")", 5, 6, True)],
+      [("(", 0, 1), ("x", 1, 2, True), ("o", 2, 3), ("o", 4, 5, True), (")", 7, 8)]]),
+]
+
+
+def mark_faulty(rng, inp):
+    """mark some lexemes of a placed input as lexer-supplied faulty lexemes (only lexemes of non-zero length:
+    a zero-length faulty lexeme is what the recoverer inserts).  -> (mode, input)"""
+    n = len(inp)
+    if n == 0:
+        return "none", inp
+    mode = rng.choice(["first", "last", "kth", "subset", "all", "ends"])
+    if mode == "first":
+        pick = {0}
+    elif mode == "last":
+        pick = {n - 1}
+    elif mode == "ends":
+        pick = {0, n - 1}
+    elif mode == "kth":
+        k, off = rng.randint(2, 3), rng.randint(0, 2)
+        pick = set(i for i in range(n) if i % k == off % k)
+    elif mode == "subset":
+        pick = set(i for i in range(n) if rng.random() < 0.4) or {rng.randrange(n)}
+    else:
+        pick = set(range(n))
+    return mode, [(l[0], l[1], l[2], True) if (i in pick and l[2] > l[1]) else l for i, l in enumerate(inp)]
 
 
 # ---------------------------------------------------------------- generation
@@ -137,6 +186,22 @@ def gen_cases(ctx, n_grammars, n_inputs):
     for src, inputs in CORPUS_REC:
         cases.append((src, 1, inputs))
         cases.append((src, 0, inputs))
+    for src, inputs in CORPUS_FAULTY:
+        cases.append((src, 0, inputs))
+        cases.append((src, 1, inputs))
+    for src, inputs in CORPUS_FAULTY_REC:
+        cases.append((src, 1, inputs))
+        cases.append((src, 0, inputs))
+    # the corpus inputs again with every lexeme / the first / the last one faulty
+    for src, inputs in CORPUS + CORPUS_REC:
+        for pick in ("all", "first", "last"):
+            marked = []
+            for inp in inputs:
+                n = len(inp)
+                sel = set(range(n)) if pick == "all" else ({0} if pick == "first" else {n - 1})
+                marked.append([(l[0], l[1], l[2], True) if (i in sel and l[2] > l[1]) else l for i, l in enumerate(inp)])
+            cases.append((src, 0, marked))
+            cases.append((src, 1, marked))
     fams = [("eps", lambda: eps_family(rng)),
             ("nullable", lambda: G.nullable_heavy(rng)),
             ("random", lambda: G.random_grammar(rng, empty_p=0.35)),
@@ -165,14 +230,29 @@ def gen_cases(ctx, n_grammars, n_inputs):
             good.append(s)
             bad.append(G.mutate(rng, s, alphabet, rng.randint(1, 2)))
         src = g.render()
-        cases.append((src, 0, [place(rng, s) for s in good + bad[:max(2, n_inputs // 3)]]))
-        cases.append((src, 1, [place(rng, s) for s in bad + good[:max(2, n_inputs // 3)]]))
+        plain = [place(rng, s) for s in good + bad[:max(2, n_inputs // 3)]]
+        recov = [place(rng, s) for s in bad + good[:max(2, n_inputs // 3)]]
+        # lexer-supplied faulty lexemes: every third input of a case is run a second time with some of its lexemes marked
+        # faulty (first / last / both ends / every k-th / a random subset / all).  The marks come from a generator of their
+        # own (seeded from the case) so that the rest of the generated stream does not depend on them.
+        frng = random.Random(zlib.crc32(src.encode()) ^ (ng * 2654435761 & 0xffffffff))
+        for rec, inps in ((0, plain), (1, recov)):
+            extra = []
+            for k in range(frng.randrange(3), len(inps), 3):
+                mode, m = mark_faulty(frng, inps[k])
+                if mode != "none":
+                    extra.append(m)
+                    ctx.count("inputs_with_faulty_lexemes_" + mode)
+            cases.append((src, rec, inps + extra))
     return cases
 
 
+def lex_word(l):
+    return "%s@%d-%d%s" % (l[0], l[1], l[2], "!" if len(l) > 3 and l[3] else "")
+
+
 def case_line(src, rec, inputs):
-    return "O %s %d ; %s" % (src.encode().hex(), rec,
-                             " ; ".join(" ".join("%s@%d-%d" % l for l in inp) for inp in inputs))
+    return "O %s %d ; %s" % (src.encode().hex(), rec, " ; ".join(" ".join(lex_word(l) for l in inp) for inp in inputs))
 
 
 # ---------------------------------------------------------------- parsing of result lines
